@@ -169,6 +169,12 @@ func genEngine(c *Ctx) error {
 				fmt.Fprintf(&sig, ",j%d/%d/%d", s.newN, spill, rb)
 			} else {
 				switch {
+				case r.Chance(1, 10) && !walFocus:
+					if p.toRollback() {
+						commits++
+						c.Count("tx.to-rollback")
+						sig.WriteString(",torb")
+					}
 				case (r.Chance(1, 6) || (walFocus && r.Chance(1, 4))) && len(p.walPages) > 0:
 					restart := r.Chance(2, 3)
 					p.sqliteCheckpoint(restart, restart && r.Chance(1, 3))
@@ -252,6 +258,10 @@ func directedWALShrink(c *Ctx) {
 				p.walOff = 0
 			}
 			observe(c, cs, p, "directed wal-shrink: checkpoint")
+			// a transaction in a fresh WAL generation that stays away from the checksum block(s) the
+			// cut pages belonged to: their blocks are summed from the cache, not page by page
+			p.walTx(txShape{newN: n - cut, pages: map[int]bool{1: true}, commit: true}, false, false, false)
+			observe(c, cs, p, "directed wal-shrink: page 1 only after the checkpoint")
 			grow := txShape{newN: n + 3, pages: map[int]bool{1: true}, commit: true}
 			for pg := n - cut + 1; pg <= n+3; pg++ {
 				grow.pages[pg] = true
